@@ -139,7 +139,80 @@ func verifyExact(db *pogreb.DB, want map[string][]byte, absent [][]byte) string 
 	return ""
 }
 
+// c16MaxValue: a value of exactly MaxValueLength (512 MiB) must be accepted and read back byte-exactly right away
+// (before anything else is written to the segment), one byte more must be rejected without touching the files.
+// The value is all zeroes except sparse markers, so that the cost is dominated by a single copy.
+func c16MaxValue(c *core.Ctx) {
+	core.PinSeed(99)
+	fsk := core.FSOSMMap
+	env := core.NewEnv(fsk)
+	defer env.Cleanup()
+	db, err := env.Open(core.Config{})
+	if err != nil {
+		c.Violation("open-error", err.Error(), nil)
+		return
+	}
+	defer db.Close()
+	c.Stat("max_value_512MiB", 1)
+	c.Stat("combos", 1)
+	c.Eval(1)
+	c.Distinct("maxvalue", fsk)
+	fail := func(sig, detail string) {
+		c.Violation(sig, detail+"; key length 3, value length 512 MiB (the limit), fs "+string(fsk), map[string]interface{}{"fs": fsk})
+	}
+	if err := db.Put([]byte("pre"), []byte("x")); err != nil {
+		fail("put-error", err.Error())
+		return
+	}
+	val := make([]byte, 512<<20)
+	for i := 0; i < len(val); i += 1 << 20 {
+		val[i] = byte(i>>20) | 1
+	}
+	val[len(val)-1] = 0xEE
+	if err := db.Put([]byte("max"), val); err != nil {
+		fail("put-error", "Put of a value of exactly the maximum length failed: "+err.Error())
+		return
+	}
+	got, err := db.Get([]byte("max"))
+	if err != nil || len(got) != len(val) {
+		fail("roundtrip-live", fmt.Sprintf("Get right after Put returned %d bytes, err %v", len(got), err))
+		return
+	}
+	for i := 0; i < len(val); i += 1 << 20 {
+		if got[i] != val[i] {
+			fail("roundtrip-live", fmt.Sprintf("byte %d differs", i))
+			return
+		}
+	}
+	if got[len(got)-1] != 0xEE {
+		fail("roundtrip-live", "last byte differs")
+		return
+	}
+	got = nil
+	fp, _ := env.List(env.Dir), 0
+	big := make([]byte, 512<<20+1) // never touched
+	if err := db.Put([]byte("big"), big); err == nil {
+		fail("overlimit-put-accepted", "Put with a value of 512 MiB + 1 returned nil")
+		return
+	}
+	c.Stat("overlimit_puts_rejected", 1)
+	after := env.List(env.Dir)
+	for n, sz := range fp {
+		if after[n] != sz {
+			fail("overlimit-changed-files", "rejected Put changed the size of "+n)
+			return
+		}
+	}
+	if n := db.Count(); n != 2 {
+		fail("roundtrip-live", fmt.Sprintf("Count()=%d, want 2", n))
+	}
+}
+
 func runC16(c *core.Ctx) {
+	if c.Thorough() && c.Case == 7 {
+		c16MaxValue(c) // too heavy for the quick tier (CRC and copies of 512 MiB)
+		return
+	}
 	rng := c.Rng
 	seed := rng.Uint32()
 	core.PinSeed(seed)
